@@ -40,6 +40,7 @@ const (
 	CQuerySearch   Call = "query-search"   // Query with a full-text search term (goes through the search index)
 	CPrefix        Call = "prefix"         // ResolvePrefix(shared[:8])
 	CSnapshot      Call = "snapshot"       // Resolve(shared).Snapshot()
+	CSetMetaShared Call = "setmeta-shared" // resolve shared bug, SetMetadata on its create operation, Commit (what a bridge exporter does)
 
 	// calls of the clock scenarios (property C05 under threads): straight on the repository handle
 	CClockInc     Call = "clock-increment" // repo.Increment("bugs-edit")
@@ -73,6 +74,13 @@ type Scenario struct {
 	// CMergeNew the on-disk state is a crash image: a copy of it is opened with OpenGoGitRepo +
 	// bug.ClockLoader and must hold clocks at or above every time stored under a local bug ref.
 	Crash bool `json:"crash,omitempty"`
+	// OpenCrash: no threads. A repository with three bugs has lost the listed clock files ("edit",
+	// "create" or "edit,create"); OpenGoGitRepo + bug.ClockLoader is run on it and every mutating
+	// file operation of its local storage (clock temp file / rename, rebuild marker create / remove)
+	// is (a) a crash point: the on-disk state before it is a crash image, and (b) a fail-stop
+	// point: that operation and every later one return an error. Each resulting state is opened
+	// again with the loader and must hold clocks at or above every stored time.
+	OpenCrash string `json:"opencrash,omitempty"`
 }
 
 // Issued is one operation a thread tried to record.
@@ -150,6 +158,9 @@ var FreeRunning bool
 func RunOne(s Scenario, prefix []int, preempt bool, recordSites bool) (res Result, err error) {
 	if s.MemClock != "" {
 		return runMemClock(s, prefix, recordSites)
+	}
+	if s.OpenCrash != "" {
+		return runOpenCrash(s)
 	}
 	dir, err := os.MkdirTemp(world.ScratchRoot(), "c18")
 	if err != nil {
@@ -595,8 +606,13 @@ func describe(c *cache.RepoCache, ids []entity.Id) view {
 			ex = append(ex, fmt.Sprintf("%s: excerpt error %v", id, err))
 			continue
 		}
-		ex = append(ex, fmt.Sprintf("%s title=%q status=%s labels=%v comments=%d create=%d edit=%d cunix=%d eunix=%d actors=%v participants=%v",
-			id, x.Title, x.Status, x.Labels, x.LenComments, x.CreateLamportTime, x.EditLamportTime, x.CreateUnixTime, x.EditUnixTime, x.Actors, x.Participants))
+		var meta []string
+		for k, val := range x.CreateMetadata {
+			meta = append(meta, k+"="+val)
+		}
+		sort.Strings(meta)
+		ex = append(ex, fmt.Sprintf("%s title=%q status=%s labels=%v comments=%d create=%d edit=%d cunix=%d eunix=%d actors=%v participants=%v create-metadata=%v",
+			id, x.Title, x.Status, x.Labels, x.LenComments, x.CreateLamportTime, x.EditLamportTime, x.CreateUnixTime, x.EditUnixTime, x.Actors, x.Participants, meta))
 	}
 	all := c.Bugs().AllIds()
 	sort.Slice(all, func(i, j int) bool { return all[i] < all[j] })
@@ -755,6 +771,14 @@ func (e *env) do(name string, call Call) []Issued {
 	case CTitleShared:
 		return edit(e.shared, func(b *cache.BugCache) (entity.Id, error) {
 			op, err := b.SetTitle("title by " + name + " uniqtitle" + strings.ToLower(name))
+			if op == nil {
+				return "", err
+			}
+			return op.Id(), err
+		})
+	case CSetMetaShared:
+		return edit(e.shared, func(b *cache.BugCache) (entity.Id, error) {
+			op, err := b.SetMetadata(b.Snapshot().Operations[0].Id(), map[string]string{"export-" + strings.ToLower(name): "ext-" + strings.ToLower(name)})
 			if op == nil {
 				return "", err
 			}
@@ -1033,9 +1057,13 @@ func (e *env) crashImage(dir string) {
 }
 
 func judgeImage(dir string) []Problem {
+	return judgeImageAs(dir, "c06.crash-in-schedule", "merge-new||clock-write", "a thread has returned from publishing a merged bug, another thread is inside a clock write")
+}
+
+func judgeImageAs(dir, oracle, what, situation string) []Problem {
 	var out []Problem
 	add := func(sig, format string, a ...any) {
-		out = append(out, Problem{"c06.crash-in-schedule", sig, fmt.Sprintf(format, a...)})
+		out = append(out, Problem{oracle, sig, fmt.Sprintf(format, a...)})
 	}
 	img, err := os.MkdirTemp(world.ScratchRoot(), "img")
 	if err != nil {
@@ -1049,7 +1077,7 @@ func judgeImage(dir string) []Problem {
 	}
 	r, err := repository.OpenGoGitRepo(img+"/repo", world.Namespace, []repository.ClockLoader{bug.ClockLoader})
 	if err != nil {
-		add("merge-new||clock-write:reopen-fails", "a process dying at this point leaves a repository that does not open: %v", err)
+		add(what+":reopen-fails", "a process dying at this point leaves a repository that does not open: %v", err)
 		return out
 	}
 	defer r.Close()
@@ -1067,17 +1095,176 @@ func judgeImage(dir string) []Problem {
 		}
 		d, err := refmodel.ReadDAG(r, h)
 		if err != nil {
-			add("merge-new||clock-write:ref-to-missing-object", "%v", err)
+			add(what+":ref-to-missing-object", "%v", err)
 			continue
 		}
 		for _, p := range d.Packs {
 			if p.EditTime > clocks["bugs-edit"] {
-				add("merge-new||clock-write:clock-below-stored-time", "a process dying at this point (a thread has returned from publishing a merged bug, another thread is inside a clock write) re-opens with bugs-edit=%d; a commit reachable from a local bug ref stores edit time %d", clocks["bugs-edit"], p.EditTime)
+				add(what+":clock-below-stored-time", "a process dying at this point (%s) re-opens with bugs-edit=%d; a commit reachable from a local bug ref stores edit time %d", situation, clocks["bugs-edit"], p.EditTime)
 			}
 			if p.CreateTime > clocks["bugs-create"] {
-				add("merge-new||clock-write:clock-below-stored-time", "a process dying at this point re-opens with bugs-create=%d; a local bug stores creation time %d", clocks["bugs-create"], p.CreateTime)
+				add(what+":clock-below-stored-time", "a process dying at this point (%s) re-opens with bugs-create=%d; a local bug stores creation time %d", situation, clocks["bugs-create"], p.CreateTime)
 			}
 		}
 	}
 	return out
 }
+
+// ---- every file-system mutation of OpenGoGitRepo as a crash point and a fail-stop point (C06) -------
+
+var errInjectedIO = fmt.Errorf("injected file-system error")
+
+func runOpenCrash(s Scenario) (res Result, err error) {
+	dir, err := os.MkdirTemp(world.ScratchRoot(), "c18open")
+	if err != nil {
+		return res, err
+	}
+	defer os.RemoveAll(dir)
+	vctl.Activate(7, 0)
+	defer vctl.Deactivate()
+	vctl.SetActor("setup")
+	world.IsolateEnv(dir)
+	repo, err := repository.InitGoGitRepo(dir+"/base/repo", world.Namespace)
+	if err != nil {
+		return res, err
+	}
+	u, err := identity.NewIdentity(repo, "user", "u@example.org")
+	if err == nil {
+		err = u.Commit(repo)
+	}
+	if err != nil {
+		return res, err
+	}
+	// three bugs; the one created first is edited last, so whichever order the loader meets them
+	// in, the first one it witnesses leaves a clock below what another one stores
+	var bugs []*bug.Bug
+	for i := 0; i < 3; i++ {
+		b, _, err := bug.Create(u, time.Unix(1600000000, 0).Unix(), fmt.Sprintf("bug %d", i), "message", nil, nil)
+		if err == nil {
+			err = b.Commit(repo)
+		}
+		if err != nil {
+			return res, err
+		}
+		bugs = append(bugs, b)
+	}
+	bugs[0].Append(bug.NewAddCommentOp(u, time.Unix(1600000000, 0).Unix(), "edited last", nil))
+	if err := bugs[0].Commit(repo); err != nil {
+		return res, err
+	}
+	_ = repo.Close()
+	for _, n := range strings.Split(s.OpenCrash, ",") {
+		if err := os.Remove(dir + "/base/repo/.git/" + world.Namespace + "/clocks/bugs-" + n); err != nil {
+			return res, err
+		}
+	}
+	loaders := []repository.ClockLoader{bug.ClockLoader}
+	situation := "OpenGoGitRepo with the clock loader on a repository whose " + s.OpenCrash + " clock file is missing"
+	problems := map[string]Problem{}
+	record := func(ps []Problem, suffix string) {
+		for _, p := range ps {
+			p.Sig += suffix
+			problems[p.Oracle+"|"+p.Sig] = p
+		}
+	}
+	var mu sync.Mutex
+	busy := false
+	defer func() { vsync.IOFaultHook = nil }()
+
+	// (a) crash points: the state before every mutating file operation, and the state at the end
+	work := dir + "/crash"
+	if err := world.CopyTree(dir+"/base", work); err != nil {
+		return res, err
+	}
+	var ops []string
+	images := 0
+	vsync.IOFaultHook = func(op, name string) error {
+		mu.Lock()
+		if busy {
+			mu.Unlock()
+			return nil
+		}
+		busy = true
+		mu.Unlock()
+		ops = append(ops, op+" "+trimRandom(name))
+		images++
+		record(judgeImageAs(work, "c06.open-crash", "open-with-missing-clocks/"+opClass(op, name), situation+", dying before "+op+" "+trimRandom(name)), "/between-mutations")
+		mu.Lock()
+		busy = false
+		mu.Unlock()
+		return nil
+	}
+	r, err := repository.OpenGoGitRepo(work+"/repo", world.Namespace, loaders)
+	if err != nil {
+		return res, fmt.Errorf("the uninterrupted open fails: %w", err)
+	}
+	_ = r.Close()
+	vsync.IOFaultHook = nil
+	images++
+	record(judgeImageAs(work, "c06.open-crash", "open-with-missing-clocks/end", situation+", after the open"), "/between-mutations")
+
+	// (b) fail-stop points: operation k and every later one return an error, nobody dies
+	for k := 1; k <= len(ops); k++ {
+		work := fmt.Sprintf("%s/fail%d", dir, k)
+		if err := world.CopyTree(dir+"/base", work); err != nil {
+			return res, err
+		}
+		n := 0
+		class := ""
+		vsync.IOFaultHook = func(op, name string) error {
+			mu.Lock()
+			defer mu.Unlock()
+			if busy {
+				return nil
+			}
+			n++
+			if n == k {
+				class = opClass(op, name)
+			}
+			if n >= k {
+				return errInjectedIO
+			}
+			return nil
+		}
+		r, oerr := repository.OpenGoGitRepo(work+"/repo", world.Namespace, loaders)
+		if oerr == nil {
+			_ = r.Close()
+		}
+		mu.Lock()
+		busy = true // the re-open below is not under fault
+		mu.Unlock()
+		if class == "" {
+			return res, fmt.Errorf("fail-stop point %d of %d was not reached", k, len(ops))
+		}
+		record(judgeImageAs(work, "c06.open-crash", "open-with-missing-clocks/"+class, fmt.Sprintf("%s; that operation and every later one returned an error, the open reported %v", situation, oerr)), "/error-at-mutation")
+		mu.Lock()
+		busy = false
+		mu.Unlock()
+		vsync.IOFaultHook = nil
+		_ = os.RemoveAll(work)
+	}
+	keys := make([]string, 0, len(problems))
+	for k := range problems {
+		keys = append(keys, k)
+	}
+	sort.Strings(keys)
+	for _, k := range keys {
+		res.Problems = append(res.Problems, problems[k])
+	}
+	res.Outcome = fmt.Sprintf("file-operations=[%s] crash-images=%d fail-stop-points=%d", strings.Join(ops, "; "), images, len(ops))
+	return res, nil
+}
+
+// opClass names a file operation by kind and target: clock file, rebuild marker, other.
+func opClass(op, name string) string {
+	switch {
+	case strings.Contains(name, "rebuild"):
+		return op + "(rebuild-marker)"
+	case strings.Contains(name, "clock"):
+		return op + "(clock-file)"
+	}
+	return op + "(other)"
+}
+
+// trimRandom removes the random suffix of temporary file names.
+func trimRandom(name string) string { return strings.TrimRight(name, "0123456789") }
